@@ -357,11 +357,58 @@ theorem eq_nd (a b : Arr ICell) (r : Arr Bool) (h : Arr.map2 eqCode a b = some r
   obtain ⟨out, _, rfl⟩ := h
   rfl
 
+/-! #### whole-operand level of `==` / `!=`: incompatible operands are unequal, never an error -/
+
+/-- operands whose item shapes (numerator and denominator axes) differ, or whose shapes cannot be broadcast, are reported
+    as unequal: `==` is the Python bool False and `!=` is True -/
+theorem eq_ne_incompatible (itemS itemA : List Nat) (s a : Arr ICell)
+    (h : itemS ≠ itemA ∨ bcast s.shape a.shape = none) :
+    eqTop itemS itemA s a = .whole false ∧ neTop itemS itemA s a = .whole true := by
+  have hc : compatCode itemS itemA s.shape a.shape = false := by
+    unfold compatCode
+    rcases h with h | h
+    · simp [h]
+    · simp [h]
+  simp [eqTop, neTop, hc]
+
+/-- compatible operands (equal item shapes, broadcastable shapes) are compared element by element over the broadcast
+    shape, each element by the `==` / `!=` table -/
+theorem eq_ne_compatible (item : List Nat) (s a : Arr ICell) (out : Shape)
+    (hb : bcast s.shape a.shape = some out) :
+    (∃ r, eqTop item item s a = .elems r ∧ r.shape = out ∧
+        ∀ i, r.get i = eqCode (s.get (bidx s.shape i)) (a.get (bidx a.shape i))) ∧
+    (∃ r, neTop item item s a = .elems r ∧ r.shape = out ∧
+        ∀ i, r.get i = neCode (s.get (bidx s.shape i)) (a.get (bidx a.shape i))) := by
+  have hc : compatCode item item s.shape a.shape = true := by simp [compatCode, hb]
+  constructor
+  · refine ⟨⟨out, fun i => eqCode (s.get (bidx s.shape i)) (a.get (bidx a.shape i))⟩, ?_, rfl, fun _ => rfl⟩
+    simp [eqTop, hc, Arr.map2, hb]
+  · refine ⟨⟨out, fun i => neCode (s.get (bidx s.shape i)) (a.get (bidx a.shape i))⟩, ?_, rfl, fun _ => rfl⟩
+    simp [neTop, hc, Arr.map2, hb]
+
+/-- `==` never fails and `!=` is its complement at the whole-operand level too -/
+theorem eq_ne_top_complementary (itemS itemA : List Nat) (s a : Arr ICell) :
+    (∃ b, eqTop itemS itemA s a = .whole b ∧ neTop itemS itemA s a = .whole (!b)) ∨
+    (∃ r r', eqTop itemS itemA s a = .elems r ∧ neTop itemS itemA s a = .elems r' ∧ r'.shape = r.shape ∧
+        ∀ i, r'.get i = !r.get i) := by
+  cases hc : compatCode itemS itemA s.shape a.shape
+  · left; exact ⟨false, by simp [eqTop, hc], by simp [neTop, hc]⟩
+  · cases hb : bcast s.shape a.shape with
+    | none => left; exact ⟨false, by simp [eqTop, hc, Arr.map2, hb], by simp [neTop, hc, Arr.map2, hb]⟩
+    | some out =>
+      right
+      refine ⟨⟨out, fun i => eqCode (s.get (bidx s.shape i)) (a.get (bidx a.shape i))⟩,
+              ⟨out, fun i => neCode (s.get (bidx s.shape i)) (a.get (bidx a.shape i))⟩, ?_, ?_, rfl, ?_⟩
+      · simp [eqTop, hc, Arr.map2, hb]
+      · simp [neTop, hc, Arr.map2, hb]
+      · intro i; exact eq_ne_complementary _ _
+
 /-! #### non-vacuity -/
 example : (tvlAndCode false false ⟨true, true⟩ ⟨true, false⟩).t3 = .m := by decide
 example : (tvlAnyCode .array [⟨true, true⟩, ⟨false, false⟩]).t3 = .m := by decide
 example : Rep.ok (.scalar true) [⟨true, true⟩, ⟨false, true⟩] := by simp [Rep.ok]
 example : (tvlAnyCode (.scalar true) []).t3 = .f := by decide
 example : eqCode ⟨[1, 2], true⟩ ⟨[3, 4], true⟩ = true := by decide
+example : compatCode [] [3] [] [] = false ∧ compatCode [3] [3] [2, 1] [3] = true := by decide
 
 end PMV.Logic3
